@@ -60,8 +60,8 @@ let refresh sid =
 let ios = int_of_string
 
 let () =
-  reg "specdec" (function [h; b] -> show_opt (spec_decode_lin (bytes_of_hex h) (bytes_of_hex b)) | _ -> "badargs");
-  reg "strict" (function [h; b] -> show_opt (strict_valid_lin (bytes_of_hex h) (bytes_of_hex b)) | _ -> "badargs");
+  reg "specdec" (function [h; b] -> show_opt (spec_decode_fast (bytes_of_hex h) (bytes_of_hex b)) | _ -> "badargs");
+  reg "strict" (function [h; b] -> show_opt (strict_valid_fast (bytes_of_hex h) (bytes_of_hex b)) | _ -> "badargs");
   reg "strict_ref" (function [h; b] -> show_opt (strict_valid_fast (bytes_of_hex h) (bytes_of_hex b)) | _ -> "badargs");
   reg "reset" (function _ -> mem := empty_mem; Hashtbl.reset ctxs; Hashtbl.reset attached; "ok");
   reg "w" (function [a; d] -> mem := store_list !mem (zs a) (bytes_of_hex d); "ok" | _ -> "badargs");
